@@ -119,14 +119,16 @@ static void mkaddr(char *out, size_t n, const char *host)
         snprintf(out, n, "%s:%s:%d", g_tp, host, g_port);
 }
 
+static const char *g_connect_api = "xcm_connect_a";
+
 static struct xcm_socket *nb_connect(const char *addr, struct xcm_attr_map *extra)
 {
     struct xcm_attr_map *a = nb_attrs();
     if (extra)
         xcm_attr_map_add_all(a, extra);
     mc_sched_point("xcm_connect_a");
-    struct xcm_socket *s = API("xcm_connect_a", 1, xcm_connect_a(addr, a));
-    mc_observe("xcm_connect_a(%s) -> %s", addr, s ? "socket" : errname(errno));
+    struct xcm_socket *s = API(g_connect_api, 1, xcm_connect_a(addr, a));
+    mc_observe("%s(%s) -> %s", g_connect_api, addr, s ? "socket" : errname(errno));
     g_ops++;
     mc_count(1, 1);
     xcm_attr_map_destroy(a);
@@ -206,7 +208,10 @@ static void task(void *arg)
                     xcm_attr_map_add_str(x, "xcm.local_addr", la);
                 }
                 mkaddr(addr, sizeof addr, hosts[h]);
+                /* the way the local end is named is part of the call site (finding signatures) */
+                g_connect_api = l >= 2 ? "xcm_connect_a[xcm.local_addr=dns-name]" : "xcm_connect_a";
                 struct xcm_socket *s = nb_connect(addr, x);
+                g_connect_api = "xcm_connect_a";
                 xcm_attr_map_destroy(x);
                 if (s) {
                     OP("xcm_finish", xcm_finish(s));
